@@ -825,6 +825,9 @@ def extract_adapters(errors):
     return "Adapters", "\n".join(L)
 
 
+EXTRA_EXTRACTORS = []   # other sections may append their extract_* function here
+
+
 # ------------------------------------------------------------------ entry point
 
 def write_if_changed(name, content):
@@ -863,33 +866,36 @@ def cross_check(env, errors):
         errors.append(f"cross-check: import failed: {type(e).__name__}: {e}")
 
 
+def sub_extractors():
+    """Per-topic extractors living in their own modules (harness/extract_<topic>.py, each defining
+    extract_<topic>(errors) -> (GenFileName, content)). Add new ones HERE (one line), nowhere else."""
+    import importlib
+    out = []
+    for topic in ("pipeline", "record", "textout", "formats"):
+        mod = importlib.import_module(f"harness.extract_{topic}" if __package__ in (None, "") else f"{__package__}.extract_{topic}")
+        out.append(getattr(mod, f"extract_{topic}"))
+    return out + list(EXTRA_EXTRACTORS)
+
+
 def run():
-    """Regenerate Gen/*.lean. Returns the list of files whose content changed; raises ExtractError on failure."""
+    """Regenerate Gen/*.lean. Returns the list of files whose content changed; raises ExtractError on failure.
+    A Gen file whose section failed to extract is left as it was (so the model still builds and the search for a
+    failing input can use it); the failure itself is reported to the caller."""
     errors = []
     changed = []
+    n0 = len(errors)
     name, content, env = extract_base(errors)
-    if write_if_changed(name, content):
+    if len(errors) == n0 and write_if_changed(name, content):
         changed.append(name)
-    for fn in (extract_wire, extract_selector, extract_adapters):
+    seen = []
+    for fn in [extract_wire, extract_selector, extract_adapters] + sub_extractors():
+        if fn in seen:
+            continue
+        seen.append(fn)
+        n0 = len(errors)
         name, content = fn(errors)
-        if write_if_changed(name, content):
+        if len(errors) == n0 and write_if_changed(name, content):
             changed.append(name)
-    from .extract_pipeline import extract_pipeline  # C10 / C16 structural facts -> Gen/Pipeline.lean
-    name, content = extract_pipeline(errors)
-    if write_if_changed(name, content):
-        changed.append(name)
-    from .extract_record import extract_record  # C05 / C06 / C12 / C15 record-layer facts -> Gen/Record.lean
-    name, content = extract_record(errors)
-    if write_if_changed(name, content):
-        changed.append(name)
-    from .extract_textout import extract_textout  # C20 / C19 format strings and shapes -> Gen/TextOut.lean
-    name, content = extract_textout(errors)
-    if write_if_changed(name, content):
-        changed.append(name)
-    from .extract_formats import extract_formats  # C13 / C14 timestamp and JSON facts -> Gen/Formats.lean
-    name, content = extract_formats(errors)
-    if write_if_changed(name, content):
-        changed.append(name)
     cross_check(env, errors)
     if errors:
         raise ExtractError("; ".join(errors))
